@@ -62,7 +62,7 @@ class C03(Prop):
         "language theorems",
         "str.isdigit / str.lower are modelled on ASCII (the strings reaching them are rendered versions)"]
     dist_limit = 250
-    budget = {"quick": (9000, 9000), "thorough": (400000, 250000)}
+    budget = {"quick": (30000, 30000), "thorough": (1000000, 500000)}
 
     def __init__(self):
         self._label = {}
